@@ -425,7 +425,10 @@ fn jcheck_main(env: &mut VEnv, _args: Vec<Field>) -> BuiltinFuture<'_> {
                     }
                     Some(_) => {}
                 }
-                if bang.0 != prev && !env.jobs.iter().any(|(_, j)| j.is_owned && j.pid == bang) {
+                // a new value is the pid of a job just inserted — or of one the same statement has already waited for
+                // to its end (then the process is a terminated child)
+                let waited = table.processes.get(&bang).is_some_and(|p| p.ppid() == me && !p.state().is_alive());
+                if bang.0 != prev && !waited && !env.jobs.iter().any(|(_, j)| j.is_owned && j.pid == bang) {
                     fail.get_or_insert(format!("bang-changed-to-{bang}-which-is-no-job"));
                 }
             } else if prev != 0 {
